@@ -4,10 +4,20 @@ MODULE = "pyxform.survey"
 Elem = Opaque("Elem")
 declare_fields("Elem", name=str, type=str)
 XPathMap = Dict[str, Opt[Elem]]
+XNode = Opaque("XNode")
+StrMap = Dict[str, str]
+declare_class("Survey", "pyxform.survey.Survey")
+declare_class("Section", "pyxform.section.Section")
+
+# the slots of a Survey object that the contracted methods read (a record; methods that need fewer fields accept it)
+SurveyK = Obj("Survey", name=str, _xpath=Opt[XPathMap], attribute=Opt[StrMap], id_string=str, instance_xmlns=Opt[str],
+              version=Opt[str], prefix=Opt[str], delimiter=Opt[str], title=str, style=Opt[str],
+              submission_url=Opt[str], public_key=Opt[str], auto_send=Opt[str], auto_delete=Opt[str],
+              entity_features=Opt[List[str]], namespaces=Opt[str], default_language=str)
 
 
 @spec
-def Descendants(root: Obj("Survey", _xpath=Opt[XPathMap]), which: str) -> List[Elem]:
+def Descendants(root: SurveyK, which: str) -> List[Elem]:
     """The elements yielded by iter_descendants for the given filter, in document order (trusted traversal)."""
     uninterpreted()
 
@@ -30,7 +40,7 @@ def LastNamed(d: List[Elem], i: int, s: str) -> Elem:
     return LastNamed(d, i - 1, s)
 
 
-SurveyX = Obj("Survey", _xpath=Opt[XPathMap])
+SurveyX = SurveyK
 
 
 @contract("Survey.iter_descendants")
@@ -62,3 +72,48 @@ def _(self: SurveyX) -> None:
         invariant(forall_str(lambda s: implies(CountName(d, i, s) == 1, xpaths[s] is LastNamed(d, i, s))))
         invariant(forall_str(lambda s: implies(CountName(d, i, s) >= 2, xpaths[s] is None)))
         hint(LastNamed(d, i + 1, d[i].name) is d[i])
+
+
+# ---------------------------------------------------------------- primary instance root (C11, C01)
+
+@spec
+def SectionInstance(s: SurveyK) -> XNode:
+    """The instance subtree Section.xml_instance builds for the survey root (family contract InstShape)."""
+    uninterpreted()
+
+
+@contract("Section.xml_instance", module="pyxform.section")
+def _(self: SurveyK, survey: SurveyK, **kwargs: StrMap) -> XNode:
+    trusted("family contract of xml_instance (InstShape): as called for the survey root; children shapes are the C02/C04 kernels")
+    ensures(result == SectionInstance(self))
+    ensures(result.nodeType == 1 and result.tagName == self.name)
+
+
+@contract("Survey.xml_instance")
+def _(self: SurveyK, **kwargs: StrMap) -> XNode:
+    properties("C11", "C01")
+    no_native("needs survey-element objects: exercised through the e2e oracles")
+    inst = SectionInstance(self)
+    A = some(self.attribute)
+    # the root element keeps the name and children of the section instance
+    ensures(result.nodeType == 1 and result.tagName == self.name and result.kids == inst.kids)
+    # C11: form id and version reach the root verbatim; custom attribute:: columns cannot override them
+    ensures("id" in result.attrs and result.attrs["id"] == self.id_string)
+    ensures(implies(bool(self.version), "version" in result.attrs and result.attrs["version"] == self.version))
+    ensures(implies(bool(self.instance_xmlns), "xmlns" in result.attrs and result.attrs["xmlns"] == self.instance_xmlns))
+    ensures(implies(bool(self.prefix), result.attrs["odk:prefix"] == self.prefix))
+    ensures(implies(bool(self.delimiter), result.attrs["odk:delimiter"] == self.delimiter))
+    # every custom attribute is present; it keeps its value unless it is one of the reserved names set afterwards
+    ensures(implies(bool(self.attribute), forall(0, len(keys(A)), lambda j:
+            keys(A)[j] in result.attrs
+            and implies(keys(A)[j] not in ("id", "xmlns", "version", "odk:prefix", "odk:delimiter"),
+                        result.attrs[keys(A)[j]] == A[keys(A)[j]]))))
+    # no setting leaks: without a version setting the root has no version attribute unless the author added one
+    ensures(implies(not bool(self.version) and not (bool(self.attribute) and "version" in A)
+                    and "version" not in inst.attrs, "version" not in result.attrs))
+
+    @loop(0, index="j")
+    def _():
+        invariant(result.nodeType == 1 and result.tagName == self.name and result.kids == inst.kids)
+        invariant(forall(0, j, lambda q: keys(A)[q] in result.attrs and result.attrs[keys(A)[q]] == A[keys(A)[q]]))
+        invariant(forall_str(lambda s: implies(s in result.attrs, s in inst.attrs or s in A)))
